@@ -46,6 +46,6 @@ def main():
     }
     json.dump(m, open(os.path.join(V, "MANIFEST.json"), "w"), indent=1)
 
-HOOK_COMMITS = ['c33d8ac', '5b640ab', '2c76442']  # /repo commits that add the verif-tagged hook files (add-only)
+HOOK_COMMITS = ['c33d8ac', '5b640ab', '2c76442', '7c2cb95']  # /repo commits that add the verif-tagged hook files (add-only)
 if __name__ == "__main__":
     main()
